@@ -327,6 +327,38 @@ def failed_read_then_registration(chk):
     return True
 
 
+def failures_leave_with_blocks(chk):
+    """a temporary registration (`with Class.hook(f):`) is a registration, not a handler: every failure of a read inside the block reaches the code around it"""
+    from typing import Any
+    from pyroll.core import Hook, HookHost
+    import numpy as np
+
+    class KeyFail(KeyError):
+        pass
+
+    def boom(self):
+        raise KeyFail("injected")
+    for what, impl, exc in (('no value', lambda self: None, AttributeError), ('nan', lambda self: float('nan'), ValueError),
+                            ('inf in an array', lambda self: np.array([1.0, np.inf]), ValueError), ('an error of the implementation', boom, KeyFail),
+                            ('runaway recursion', lambda self: self.h, (RecursionError, AttributeError))):
+        class Host(HookHost):
+            h = Hook[Any]()
+        chk.cov['evaluations'] += 1
+        reached, after = None, 'not reached'
+        try:
+            with Host.h(impl):
+                Host().h
+                after = 'the statement after the failing read ran'
+            after = after if after != 'not reached' else 'the block was left normally'
+        except BaseException as e:      # noqa
+            reached = e
+        if not isinstance(reached, exc) or Host.h.functions:
+            return chk.fail('class', f"`with Host.h(f): Host().h` where f yields {what}: the code around the block received "
+                            f"{type(reached).__name__ if reached is not None else 'nothing (' + after + ')'}, expected {exc if isinstance(exc, tuple) else exc.__name__}; "
+                            f"registrations left: {len(Host.h.functions)}", {'case': 'with-block', 'what': what})
+    return True
+
+
 def run(chk):
     chk.coq.add_prop_file('C07.v')
     chk.coq.compile('C07.v', is_props=True, timeout=900)
@@ -347,7 +379,7 @@ def run(chk):
         shrunk.append((cases[i], small))
         chk.unshown_add(f"correspondence:case{i}", "model and implementation disagree; shrunk history: " + json.dumps(small, default=str)[:1500])
     seen = set()
-    if result_class_oracle(chk, rng, 0) and guarded_runaway_oracle(chk) and failed_read_then_registration(chk):
+    if result_class_oracle(chk, rng, 0) and guarded_runaway_oracle(chk) and failed_read_then_registration(chk) and failures_leave_with_blocks(chk):
         for c in [cases[i] for i in bad] + cases:
             chk.cov['evaluations'] += 1
             seen.add(json.dumps(ser(c), sort_keys=True))
